@@ -341,8 +341,17 @@ func (sel *Selection) beginEdit(r NodeRequest, bubble bool) error {
 	if err := sel.Browser.Triggers.beginEdit(r); err != nil {
 		return err
 	}
+	editRoot := r.EditRoot
 	for {
 		if err := r.Selection.Node.BeginEdit(r); err != nil {
+			// every node already told that the edit begins is told that it ended
+			failedAt := r.Selection
+			r.EditRoot = editRoot
+			for s := sel; s != failedAt; s = s.parent {
+				r.Selection = s
+				s.Node.EndEdit(r)
+				r.EditRoot = false
+			}
 			return err
 		}
 		if r.Selection.parent == nil || !bubble {
@@ -356,15 +365,20 @@ func (sel *Selection) beginEdit(r NodeRequest, bubble bool) error {
 
 func (sel *Selection) endEdit(r NodeRequest, bubble bool) error {
 	r.Selection = sel
+	var firstErr error
 	for {
-		if err := r.Selection.Node.EndEdit(r); err != nil {
-			return err
+		// a failing node does not keep the remaining nodes from being told that the edit ended
+		if err := r.Selection.Node.EndEdit(r); err != nil && firstErr == nil {
+			firstErr = err
 		}
 		if r.Selection.parent == nil || !bubble {
 			break
 		}
 		r.Selection = r.Selection.parent
 		r.EditRoot = false
+	}
+	if firstErr != nil {
+		return firstErr
 	}
 	if err := sel.Browser.Triggers.endEdit(r); err != nil {
 		return err
